@@ -506,6 +506,8 @@ class VM:
                     elif self.feasible(conds, z3.UGE(T.Z(r), B)):
                         raise Unspecified('shift amount out of range feasible')
                 v = T.arith(op, l, r)
+                if mon is not None:
+                    mon.arith(self, st, ins, op, l, r, v)
                 if not isc(v) and A[0].val in self.concretize_dests:
                     v, conds = self.resolve_addr(st, conds, v, work)
                     self._c = conds
@@ -584,6 +586,9 @@ class Monitor:
     def rewind(self, vm, st, snap):
         pass
 
+    def arith(self, vm, st, ins, op, l, r, v):
+        pass
+
 
 class Monitors(Monitor):
     def __init__(self, *ms):
@@ -614,3 +619,7 @@ class Monitors(Monitor):
     def rewind(self, vm, st, snap):
         for m in self.ms:
             m.rewind(vm, st, snap)
+
+    def arith(self, vm, st, ins, op, l, r, v):
+        for m in self.ms:
+            m.arith(vm, st, ins, op, l, r, v)
